@@ -107,7 +107,20 @@ func main() {
 			break
 		}
 		s := gen(*prop, *part, *seed, i, ok)
-		r := run.Execute(s, opt)
+		var r *run.Result
+		if s.Cfg.ColdProcess && s.Mode == "G" {
+			// executed in a pristine child process: the tasks meet a package in
+			// which nothing has been evaluated yet
+			r = childExec(s, *racelog, false)
+			if r == nil {
+				continue
+			}
+			r.Stats.Runs = 1
+			r.Stats.Probes["cold_process_runs"]++
+			r.Nontrivial = false
+		} else {
+			r = run.Execute(s, opt)
+		}
 		rep.Stats.Add(r.Stats)
 		if *hashes {
 			rep.LogHashes = append(rep.LogHashes, fmt.Sprintf("%d:%016x:%016x", i, r.LogHash, r.SchedHash))
@@ -151,7 +164,7 @@ func main() {
 			}
 			// a run that left task goroutines behind (deadlock verdict) has poisoned
 			// this process: everything from here on is judged in child processes
-			poisoned := r.Poisoned
+			poisoned := r.Poisoned || (s.Cfg.ColdProcess && s.Mode == "G")
 			min := f.Original
 			if !*noShrink {
 				var n int
